@@ -327,6 +327,9 @@ func (m *Model) tAncestorOrSelf(a, x Ref) bool {
 	return false
 }
 
+// Descends: x is a or has a among its transition ancestors.
+func (m *Model) Descends(a, x Ref) bool { return m.tAncestorOrSelf(a, x) }
+
 // InSubtree (doc: "checks if root is in the subtree of the anchor. If the roots are the same, it
 // still counts"). READING: unknown iff either root has no retained node (property C11: never
 // inserted or pruned roots are unknown); otherwise ancestor-or-equal between the FIRST nodes.
